@@ -814,7 +814,7 @@ func run(r *core.Run) {
 	r.Assume("duration-s / duration-ms: exact (correctly rounded n/1e9, n/1e6) when |n| <= 2^53, within one ulp above")
 	r.Assume("time-from saturates beyond +-(2^63-1) ns: only its sign is asserted there; time-add/time-from inverses are asserted whenever the difference fits int64 ns")
 	r.Assume("an accepted near-miss with several bad fields is not reported separately when each of its bad fields is accepted on its own (the single-field string is the minimal counter-example)")
-	r.Assume("sleep: a refusal is an error returned within the 2 s watchdog when the requested sleep is >= 59 min or provably not slept; allowed sleeps are only executed at <= 50 ms, allowed long sleeps are started under a cancellable context and cancelled after 100 ms; " +
+	r.Assume("sleep: a refusal is an error returned within the 20 s watchdog when the requested sleep is >= 59 min or provably not slept; allowed sleeps are only executed at <= 50 ms, allowed long sleeps are started under a cancellable context and cancelled after 100 ms; " +
 		":max above the host ceiling with a duration below it, a non-positive or non-duration :max with a duration under the other caps, and a deadline less than 5 s after the end of the sleep are unspecified")
 
 	// model self-check 1: walk every civil date 0000-01-01 .. 9999-12-31 in calendar order (month lengths and
